@@ -1326,6 +1326,37 @@ def mimetypes_guess_type(eng, world, args, kwargs, node):
     return VTuple([VOpt(tn, VStr(t)), VOpt(en, VStr(e))])
 
 
+@ext("pickle.load")
+def pickle_load(eng, world, args, kwargs, node):
+    """pickle.load(fp): returns the pickled value iff the remaining stream is a complete pickle; otherwise
+    raises (EOFError on a truncated stream, UnpicklingError/ValueError/... on damaged bytes)."""
+    eng.assumptions_used.add("pickle.load returns x iff the stream is a complete pickle of x (pickle.load(pickle.dump(x)) == x); on a strict prefix or damaged stream it raises EOFError / pickle.UnpicklingError / another Exception subclass")
+    fp = eng.force(args[0])
+    content = eng.getattr(fp, "content")
+    ok = sfun("is_complete_pickle", STR, BOOL)(S(content.z))
+    if not eng.branch(ok):
+        cls = ["EOFError", "UnpicklingError", "ValueError", "AttributeError"][eng.choose(4, "unpickle_error")]
+        raise Raised(VExc(cls, [VStr("bad pickle")]), getattr(node, "lineno", None))
+    shape = (eng.contract.opts.get("pickle_shape") if eng.contract else None) or "list[obj:GopherEntry]"
+    key = ("unpickled", S(content.z).sexpr())
+    if key not in eng.ghost:
+        eng.ghost[key] = eng.fresh(shape, "unpickled")
+    return eng.ghost[key]
+
+
+@ext("pickle.dump")
+def pickle_dump(eng, world, args, kwargs, node):
+    eng.assumptions_used.add("pickle.dump streams a complete pickle of its argument to the file, or raises OSError when a write fails (leaving a prefix)")
+    fp = eng.force(args[1])
+    if eng.branch_fresh("pickle_dump_fails"):
+        fp.fields["content"] = eng.fresh("bytes", "partial_pickle")
+        raise Raised(VExc("OSError", oserror_args(eng, "pickle_dump")), getattr(node, "lineno", None))
+    fp.fields["content"] = eng.fresh("bytes", "pickled")
+    fp.fields["pickled_value"] = args[0]
+    eng.assume(sfun("is_complete_pickle", STR, BOOL)(S(fp.fields["content"].z)))
+    return NONE
+
+
 def ext_open(eng, world, args, kwargs, node):
     raise OutOfSubset("open() outside a modelled VFS")
 
